@@ -1121,6 +1121,9 @@ def instrument(rec, patches):
                     q = float(o.simulated._piq)
                     if o.market_id == mid and abs(q * 100 - round(q * 100)) > 1e-6:
                         piqhalf.append(lab)
+                    # a market-on-close liability scaled by a non-runner is no longer a whole number of pence
+                    elif o.market_id == mid and not is2dp(getattr(o.order_type, "liability", None)):
+                        piqhalf.append(lab)
                 except Exception:
                     pass
             try:
